@@ -225,6 +225,8 @@ fn main() {
     let patterns: [u64; 5] = [0, u64::MAX, 0xAAAA_AAAA_AAAA_AAAA, 0x5555_5555_5555_5555, 0x0000_0000_FFFF_FFFF];
     let (mut n_sample, mut n_valid) = (0u64, 0u64);
     let mut hangs = 0u32;
+    let mut hung: std::collections::HashSet<(usize, usize)> = std::collections::HashSet::new();
+    let (mut skipped_repeat, mut aborted) = (0u64, false);
     for (fi, (fam, dt)) in fams.iter().enumerate() {
         for (ci, (start, max)) in clamps.iter().enumerate() {
             let d = Dist::new(*dt, *start, *max);
@@ -242,6 +244,17 @@ fn main() {
                 writeln!(f, "{}", json!({"k": "begin", "desc": desc})).unwrap();
                 f.flush().unwrap();
                 let first = prefix.first().copied();
+                let umax_first = first.map(|w| (w >> 11) == (1u64 << 53) - 1).unwrap_or(false);
+                // a distribution that already hung on an all-ones first word is not sampled on
+                // such a stream again (every repetition would leave another spinning thread)
+                if umax_first && hung.contains(&(fi, ci)) {
+                    skipped_repeat += 1;
+                    continue;
+                }
+                if hangs >= 8 {
+                    aborted = true;
+                    break;
+                }
                 let rng = Stream { prefix, pos: 0, fair: Xoshiro256StarStar::seed_from_u64(seed.wrapping_add(si as u64)), words: 0 };
                 let t0 = std::time::Instant::now();
                 // the sample runs in its own thread: a sampler that never returns is data, not a stuck driver
@@ -252,7 +265,7 @@ fn main() {
                     let r = catch_unwind(AssertUnwindSafe(|| dd.sample(&mut rng)));
                     let _ = tx.send((r.ok(), rng.words));
                 });
-                let got = if hangs < 6 { rx.recv_timeout(std::time::Duration::from_secs(3)).ok() } else { None };
+                let got = rx.recv_timeout(std::time::Duration::from_secs(3)).ok();
                 let ms = t0.elapsed().as_millis() as u64;
                 let maxset = *max > 0.0;
                 let (returned, hang, words, cls) = match got {
@@ -267,6 +280,7 @@ fn main() {
                 };
                 if hang {
                     hangs += 1;
+                    hung.insert((fi, ci));
                 }
                 // discriminating facts for the known-findings file
                 let sig = if hang {
@@ -287,7 +301,8 @@ fn main() {
         }
     }
     f.flush().unwrap();
-    println!("{}", json!({"clamp_records": n_clamp, "validated_dists": n_valid, "sample_records": n_sample, "hangs": hangs}));
+    println!("{}", json!({"clamp_records": n_clamp, "validated_dists": n_valid, "sample_records": n_sample, "hangs": hangs,
+                          "skipped_repeat_hang": skipped_repeat, "aborted": aborted}));
     // threads stuck in a sampler are abandoned
     std::process::exit(0);
 }
